@@ -1596,6 +1596,11 @@ class Interp:
 
     def e_DictComp(self, e, env):
         pairs = self._comp(e, env, "dict")
+        if any(_has_sym(k) for k, _ in pairs):
+            a = AssocV([])
+            for k, v in pairs:
+                a.set_item(self, k, v)
+            return a
         d = {}
         for k, v in pairs:
             d[self.hashable(k)] = v
